@@ -41,7 +41,11 @@ var expanders = [...]expander{
 		pr.PFontVariantAlternates, pr.PFontVariantCaps, pr.PFontVariantEastAsian, pr.PFontVariantLigatures,
 		pr.PFontVariantNumeric, pr.PFontVariantPosition)(_fontVariant),
 	pr.SFont: genericExpander(pr.PFontStyle, pr.PFontVariantCaps, pr.PFontWeight, pr.PFontStretch, pr.PFontSize,
-		pr.PLineHeight, pr.PFontFamily)(_expandFont),
+		pr.PLineHeight, pr.PFontFamily,
+		// not set by the shorthand, but reset to their initial values
+		pr.PFontVariantAlternates, pr.PFontVariantEastAsian, pr.PFontVariantLigatures, pr.PFontVariantNumeric,
+		pr.PFontVariantPosition, pr.PFontKerning, pr.PFontFeatureSettings, pr.PFontLanguageOverride,
+		pr.PFontVariationSettings)(_expandFont),
 	pr.STextDecoration: genericExpander(pr.PTextDecorationLine, pr.PTextDecorationColor, pr.PTextDecorationStyle)(_expandTextDecoration),
 	pr.SFlex:           genericExpander(pr.PFlexGrow, pr.PFlexShrink, pr.PFlexBasis)(_expandFlex),
 	pr.SFlexFlow:       genericExpander(pr.PFlexDirection, pr.PFlexWrap)(_expandFlexFlow),
